@@ -29,24 +29,45 @@ LEAN = {"module": "Pygom.Props.C06",
         "required": ["Pygom.C06.broadcast_spec", "Pygom.C06.broadcast_accepts_iff", "Pygom.C06.solution_selection",
                      "Pygom.C06.theta_bound_by_name", "Pygom.C06.cost_is_loss", "Pygom.C06.square_cost_zero_at_truth",
                      "Pygom.C06.unrollState_target", "Pygom.C06.unrollState_other", "Pygom.C06.earlier_outputs_unaffected",
-                     "Pygom.C06.atStored_reproduces", "Pygom.C06.output_depends_on_held_values_only"]}
+                     "Pygom.C06.atStored_reproduces", "Pygom.C06.output_depends_on_held_values_only",
+                     "Pygom.C06.replicate_observations_same_prediction"]}
 BUDGET = {"quick": {"cases": 1000, "broadcast": 50, "per_batch": 40, "history": 704},
-          "thorough": {"cases": 40000, "broadcast": 600, "per_batch": 60, "history": 7040}}
+          "thorough": {"cases": 32000, "broadcast": 600, "per_batch": 60, "history": 7040}}
 RULE = ("random bounded models (gen_model, autonomous, 2-4 states, 1-4 parameters, short horizons) and catalogue models "
         "(SIR, SEIR, Lotka_Volterra, FitzHugh); theta, x0, uniform / non-uniform grids of 3-7 observation times; 1-3 observed "
         "states in random order; five loss classes with default / scalar / per-state / per-observation / full-matrix spread; "
         "weights in every accepted shape; target_param subsets in any order, target_state subsets for costIV; observations = "
         "reference trajectory (zero at truth) or perturbed positive / integer-valued data; plus a stream of integer weight "
-        "arguments in accepted and rejected shapes.  A loss case is non-trivial when the reference trajectory exists and at "
+        "arguments in accepted and rejected shapes.  MODEL VARIANTS (dealt by weight 12:3:4:1): the above; time-dependent rates "
+        "(periodic coefficients); right-hand sides at most first order in the states (c02.gen_affine_spec: linear chains, constant "
+        "inflow, constant explicit ODE terms, time-dependent coefficients, symmetric and all-zero Jacobians; events only / explicit ODE "
+        "terms only); one state.  BOUNDARY VALUES (10 % each): a parameter / an initial state that is exactly zero.  GRID VARIANTS "
+        "(weights 8:5:3:2:2:1:1:2): plain; replicate observation times (1-3 times repeated, also the first and the last, also three "
+        "times); the grid moved to t0 in {+-738000, +-1e4, +-1e6, -123456.5}; both; a horizon of t0 + 1e-3 / 1e-6 / 1e-9 of the "
+        "normal one; two times one ulp apart; an observation at t0; a one-point grid - forms the unchanged pygom refuses with an error "
+        "(IntegrationError for the zero-length first step, InputError from the constructor's trial integration, AssertionError for a "
+        "one-point grid with several observed states) are tagged `unsupported:*`, every accepted form is judged; the variant is part of "
+        "the violation signature (`:grid=repeated`).  REJECTED INPUTS (15 % of the cases): cost with theta one too long / short, costIV "
+        "likewise, constructors with an unknown state name, one observation row too many, x0 one too short - a silent acceptance is "
+        "a mismatch (`rejection-lost:*`), the next proper cost(theta) is judged (`cost-after-rejected-input`).  A loss case is non-trivial when the reference trajectory exists and at "
         "least one class was evaluated; a broadcast batch always is.  HISTORY cases (losshist.py): scripts of 6-14 operations on "
         "one or two loss objects - every ordered pair (e1 in cost / residual / costIV / residualIV, e2 in the eleven entry points "
         "cost residual diff_loss sensitivity gradient jac costIV residualIV diff_lossIV sensitivityIV jacIV) as 'e1 at (A,X); e2 at "
         "another theta and/or x0; e1 again; restore; e1 again; e1 with theta=None', random walks, the user re-assigning "
         "model.parameters between calls, two loss objects on one model object (the second built mid-script), two model instances "
         "with the same names, copy.deepcopy of a loss object; all four combinations of target_param / target_state; t0 != 0; "
-        "theta as list / tuple / ndarray / numpy scalars; y, x0, t, weights, spread as float or int containers.  A history case "
+        "theta as list / tuple / ndarray / numpy scalars; y, x0, t, weights, spread as float or int containers; 15 % of the scripts on a grid "
+        "with replicate times, 15 % on a grid moved far from the time origin.  A history case "
         "is non-trivial when at least two calls were judged against the reference for the values the object currently holds.")
-ASSUMPTIONS = ["scipy's integrators (lsoda at rtol = atol = 1e-10 inside pygom) approximate the flow: validated per case against an "
+ASSUMPTIONS = ["an IntegrationError raised by an evaluation is not judged when scipy's own lsoda (scipy.integrate.ode on the oracle's right-hand "
+               "side, no pygom) fails on the same instance (observed: derivative exactly zero at x0, far negative t0, increments that are not "
+               "representable): tagged unjudged:scipy-lsoda-refuses-this-instance; on grids far from the origin a wrong cost is reported only "
+               "after scipy's own lsoda has been seen to be within 1e-8 (1+|ref|) of the reference on the instance",
+               "observation grids the unchanged pygom / scipy refuse with an error are outside the property's domain and only tagged: a first "
+               "observation at t0 and times one ulp apart (zero / sub-resolution step: lsoda 'illegal input'), a one-point grid with several "
+               "observed states, replicate times when the constructor's trial integrate2 restarts a dopri5 integrator on the zero-length step or "
+               "the right-hand side is identically zero; residual() turns a failed integration into an array of the largest float by design",
+               "scipy's integrators (lsoda at rtol = atol = 1e-10 inside pygom) approximate the flow: validated per case against an "
                "independent DOP853 reference at 1e-12; tolerance = 1e-6 x (sum of absolute per-entry loss terms) + the change of the reference "
                "cost when the prediction moves by 1e-7 x (1 + |yhat|) (losscommon.cost_tolerance)",
                "with non-unit weights the Poisson, Gamma and NegBinom costs ignore the weights (the code as it is; C07 restricts "
@@ -68,8 +89,142 @@ SPREAD_RANGE = {"Normal": (0.3, 2.0), "Gamma": (1.0, 5.0), "NegBinom": (0.5, 5.0
 
 # --------------------------------------------------------------------------- cases
 
-def _loss_case(r, want_order=None):
-    s = LC.gen_setup(r, want_order=want_order)
+# where the observation grid sits and what it looks like (applied to the setup of losscommon.gen_setup, which draws distinct
+# times after t0 = 0): replicate observations, a grid far from the time origin (both signs), a horizon of t0 + tiny, neighbours one
+# ulp apart, an observation at t0, a one-point grid.  What the unchanged pygom refuses (IntegrationError on a zero-length first
+# step, the constructor's trial integration on a one-ulp step, a one-point grid with several observed states) is tagged, not judged.
+GRID_VARIANTS = [("plain", 8), ("repeated", 5), ("far", 3), ("far-repeated", 2), ("tiny-horizon", 2), ("ulp", 1), ("at-t0", 1), ("one-point", 2)]
+T0_FAR = [738000.0, -738000.0, 10000.0, -10000.0, 1.0e6, -123456.5, -1.0e6]
+MODEL_VARIANTS = [("standard", 12), ("time-dependent", 3), ("affine", 4), ("one-state", 1)]
+UNSUPPORTED = {"at-t0": ("IntegrationError", "InputError"), "ulp": ("IntegrationError", "InputError"), "one-point": ("AssertionError",),
+               "repeated": ("InputError", "IntegrationError"), "far-repeated": ("InputError", "IntegrationError")}
+
+
+def _custom_setup(r, kind, want_order):
+    """the setup of losscommon.gen_setup for model families it does not draw: time-dependent rates, right-hand sides at most first
+    order in the states (linear chains, constant inflow, constant explicit ODE terms, time-dependent coefficients), one state"""
+    from .. import gen
+    from . import c02 as C2
+    if kind == "affine":
+        spec, meta = C2.gen_affine_spec(r, r.choice(C2.AFFINE))
+    elif kind == "one-state":
+        spec, meta = gen.gen_model(r, min_states=1, max_states=1, max_params=2, min_events=1, max_events=2, allow_time=r.random() < 0.3,
+                                   max_mag=2, allow_range=False, allow_derived=False)
+    else:
+        spec, meta = gen.gen_model(r, min_states=2, max_states=4, max_params=4, min_events=1, max_events=4, allow_time=True, max_mag=2,
+                                   types=(("T", 6), ("B", 1), ("D", 2)), kinds=[("linear", 3), ("mass", 3), ("saturating", 1), ("periodic", 4)])
+    states, params = meta["states"], meta["params"]
+    theta = [round(r.uniform(0.1, 0.7), 4) for _ in params]
+    x0 = [round(r.uniform(1.0, 5.0), 4) for _ in states]
+    T = r.uniform(0.5, 2.0)
+    n = r.randint(3, 7)
+    if r.random() < 0.5:
+        times, grid = [round(T * (i + 1) / n, 6) for i in range(n)], "uniform"
+    else:
+        times, grid = [], "non-uniform"
+        for c_ in sorted(r.uniform(0.05, 1.0) for _ in range(n)):
+            v = round(T * c_, 6)
+            if not times or v > times[-1] + 1e-3:
+                times.append(v)
+    obs = r.sample(states, r.randint(1, min(3, len(states))))
+    if want_order == "ascending":
+        obs = sorted(obs, key=states.index)
+    elif want_order == "not-ascending" and len(obs) >= 2:
+        obs = sorted(obs, key=states.index, reverse=True)
+    return {"model": {"src": "random", "spec": spec, "meta": {"kinds": meta["kinds"]}}, "states": states, "params": params, "theta_true": theta,
+            "theta_eval": [round(v * r.uniform(0.8, 1.25), 4) for v in theta], "x0": x0, "x0_eval": [round(v * r.uniform(0.85, 1.2), 4) for v in x0],
+            "t0": 0.0, "times": times, "grid": grid, "obs": obs}
+
+
+def scipy_lsoda_off(rhs, theta, x0, t0, times, ref_tr):
+    """is scipy's own lsoda (scipy.integrate.ode, pygom's tolerances 1e-10, the oracle's right-hand side, no pygom) off the DOP853
+    reference by more than 1e-8 (1 + |ref|) on this instance, or does it refuse?  Asked only when a wrong cost is about to be
+    reported: far from the time origin scipy's integrators now and then are silently wrong on one particular step (see C02)."""
+    import warnings
+    import scipy.integrate as si
+    th = [float(v) for v in theta]
+    try:
+        with warnings.catch_warnings():
+            warnings.simplefilter("ignore")
+            r = si.ode(lambda t, x: rhs(t, x, th)).set_integrator("lsoda", nsteps=10000, atol=1e-10, rtol=1e-10)
+            r.set_initial_value(np.array(x0, float), float(t0))
+            rows = []
+            for t in times:
+                if float(t) != r.t:
+                    r.integrate(float(t))
+                    if not r.successful():
+                        return True
+                rows.append(np.array(r.y, float))
+        a = np.array(rows)
+        return bool(not np.all(np.isfinite(a)) or np.max(np.abs(a - ref_tr) / (1.0 + np.abs(ref_tr))) > 1e-8)
+    except Exception:
+        return True
+
+
+def scipy_lsoda_refuses(rhs, theta, x0, t0, times):
+    """does scipy's own lsoda (scipy.integrate.ode, the tolerances pygom uses, the oracle's right-hand side - no pygom involved)
+    fail on this instance?  The property assumes that the solver approximates the flow; where scipy itself gives up - observed:
+    a right-hand side that is exactly zero at x0 together with a far negative t0 and increments that are not representable makes
+    lsoda report 'illegal input' - pygom raises IntegrationError, rightly, and there is nothing to judge."""
+    import warnings
+    import scipy.integrate as si
+    th = [float(v) for v in theta]
+    try:
+        with warnings.catch_warnings():
+            warnings.simplefilter("ignore")
+            r = si.ode(lambda t, x: rhs(t, x, th)).set_integrator("lsoda", nsteps=10000, atol=1e-10, rtol=1e-10)
+            r.set_initial_value(np.array(x0, float), float(t0))
+            for t in times:
+                r.integrate(float(t))
+                if not r.successful():
+                    return True
+    except Exception:
+        return True
+    return False
+
+
+def _ulp_after(v):
+    return float(np.nextafter(v, np.inf)) if abs(v) >= 1e-300 else 2.0 ** -60
+
+
+def _apply_grid_variant(r, s, variant):
+    times, t0 = list(s["times"]), float(s["t0"])
+    if variant in ("far", "far-repeated"):
+        t0 = r.choice(T0_FAR)
+        times = [t0 + v for v in times]
+    if variant in ("repeated", "far-repeated"):
+        for _ in range(r.randint(1, 3)):
+            j = r.randrange(len(times))
+            times = times[:j + 1] + [times[j]] + times[j + 1:]
+    elif variant == "tiny-horizon":
+        c = r.choice([1e-3, 1e-6, 1e-9])
+        times = [v * c for v in times]
+    elif variant == "ulp":
+        j = r.randrange(len(times))
+        times = times[:j + 1] + [_ulp_after(times[j])] + times[j + 1:]
+    elif variant == "at-t0":
+        times = [t0] + times
+    elif variant == "one-point":
+        times = [r.choice(times)]
+    s["times"], s["t0"], s["grid_variant"] = times, t0, variant
+    return s
+
+
+def _loss_case(r, want_order=None, model_variant=None, grid_variant=None):
+    from .. import gen
+    mv = model_variant or gen.wchoice(r, MODEL_VARIANTS)
+    s = LC.gen_setup(r, want_order=want_order) if mv == "standard" else _custom_setup(r, mv, want_order)
+    s["model_variant"] = mv
+    # boundary values: a parameter / an initial state that is exactly zero (data-generating and evaluated value alike)
+    if r.random() < 0.1:
+        k = r.randrange(len(s["params"]))
+        s["theta_true"][k] = s["theta_eval"][k] = 0.0
+    if r.random() < 0.1:
+        k = r.randrange(len(s["states"]))
+        s["x0"][k] = 0.0
+        if r.random() < 0.5:
+            s["x0_eval"][k] = 0.0
+    s = _apply_grid_variant(r, s, grid_variant or gen.wchoice(r, GRID_VARIANTS))
     n, p = len(s["times"]), len(s["obs"])
     tp, ts = LC.gen_targets(r, s["params"], s["states"], p_tp=0.5, p_ts=0.35)
     spreads = {}
@@ -83,7 +238,7 @@ def _loss_case(r, want_order=None):
         w[1][r.randrange(n)][r.randrange(p)] = 0.0 if n * p > 1 else w[1][0][0]
     return {"kind": "loss", "setup": s, "weights": list(w), "spreads": spreads, "target_param": tp, "target_state": ts,
             "data": r.choice(["truth", "perturbed", "perturbed"]), "noise_seed": r.getrandbits(32), "style": r.randrange(30),
-            "unweighted_call": r.random() < 0.2}
+            "unweighted_call": r.random() < 0.2, "rejected_inputs": r.random() < 0.15}
 
 
 def _rand_x(r, n, p):
@@ -208,6 +363,8 @@ def sig(site, cls, setup, tp, wkind):
         s += ":target_param"
     if wkind != "none":
         s += ":weights=" + wkind
+    if setup.get("grid_variant", "plain") != "plain":
+        s += ":grid=" + setup["grid_variant"]
     return s
 
 
@@ -230,6 +387,7 @@ def run_loss(case):
     idx = [states.index(o) for o in obs]
     tags += ["src:" + s["model"]["src"] + (":" + s["model"]["name"] if s["model"]["src"] == "catalogue" else ""),
              "grid:" + s["grid"], "p=%d" % p, "order:" + (LC.order_class(states, obs) if p > 1 else "single"),
+             "grid-variant:" + s.get("grid_variant", "plain"), "model-variant:" + s.get("model_variant", "standard"),
              "weights:" + case["weights"][0], "target_param:" + ("all" if tp is None else LC.order_class(params, tp) if len(tp) > 1 else "one"),
              "target_state:" + ("none" if ts is None else "subset"), "data:" + case["data"]]
 
@@ -263,6 +421,48 @@ def run_loss(case):
     evaluated = 0
     margins = [0.0]
     checked_setparam = False
+    gv = s.get("grid_variant", "plain")
+
+    def unsupported(exc):
+        """forms of the observation grid the unchanged pygom refuses with an error (tagged, not judged): an observation at t0
+        (scipy's lsoda reports a zero-length first step as illegal input: IntegrationError), two times one ulp apart (the
+        constructor's trial integrate2 fails: InputError), a one-point grid with several observed states (AssertionError on the
+        weight shape); replicate times when the constructor's trial integrate2 (which re-chooses the integrator from the
+        eigenvalues after every step) lands on dopri5 - a fresh dopri5 refuses the zero-length step: InputError from the
+        constructor; with a right-hand side that is identically zero (a zero parameter) lsoda itself refuses the zero-length
+        step: IntegrationError.  A form it accepts is judged like any other."""
+        if type(exc).__name__ not in UNSUPPORTED.get(gv, ()):
+            return False
+        return gv != "one-point" or p >= 2
+
+    def rejected_inputs(obj, cls, y, sg, check, th_arg, iv_arg):
+        """inputs the unchanged pygom REJECTS (wrong lengths, unknown names).  The rejection is recorded (a silent acceptance is a
+        mismatch with the specification, there is no right value to compare with); what is JUDGED is the next proper call: the
+        object must not have been left in a state that makes cost(theta) wrong."""
+        probes = [("cost:theta-too-long", lambda: obj.cost(list(th_arg) + [0.5])),
+                  ("cost:theta-too-short", lambda: obj.cost(list(th_arg)[:-1])),
+                  ("constructor:unknown-state-name", lambda: LC.loss_class(cls)(list(th_arg), model, list(s["x0"]), s["t0"], np.array(s["times"], float),
+                                                                               np.array(y, float), list(obs[:-1]) + ["no_such_state"])),
+                  ("constructor:y-one-row-too-many", lambda: LC.loss_class(cls)(list(th_arg), model, list(s["x0"]), s["t0"], np.array(s["times"], float),
+                                                                                np.vstack([y, y[-1:]]), list(obs))),
+                  ("constructor:x0-too-short", lambda: LC.loss_class(cls)(list(th_arg), model, list(s["x0"])[:-1], s["t0"], np.array(s["times"], float),
+                                                                          np.array(y, float), list(obs)))]
+        if iv_arg is not None and ts is None and tp is None:
+            probes += [("costIV:too-long", lambda: obj.costIV(list(iv_arg) + [0.5])), ("costIV:too-short", lambda: obj.costIV(list(iv_arg)[:-1]))]
+        for what, fn in probes:
+            if what.startswith("constructor") and (tp is not None or ts is not None):
+                continue
+            try:
+                fn()
+                tags.append("rejected-input:%s:ACCEPTED" % what)
+                mism.append({"what": "rejection-lost:" + what, "detail": "%sLoss accepts an input the specification (and the unchanged pygom) rejects; "
+                             "obs=%s states=%s params=%s target_param=%s" % (cls, obs, states, params, tp)})
+            except Exception as exc:
+                tags.append("rejected-input:%s:raised:%s" % (what, type(exc).__name__))
+            LC.set_params(model, params, th_true)
+        c_after = obj.cost(th_arg)
+        # (the object keeps the initial values it was last given: those of the costIV call above when there was one)
+        check("cost-after-rejected-input", c_after, tr_eval if iv_arg is None else tr_iv, W, "cost(theta) after rejected inputs")
     from fractions import Fraction
     for cls in case.get("classes", LC.CLASSES):
         if cls not in data or (cls in LC.NEEDS_POSITIVE and lowest < 0.02):
@@ -283,6 +483,9 @@ def run_loss(case):
             obj = LC.make_loss(cls, theta_arg(s, tp, th_true), model, s["x0"], s["t0"], s["times"], y, obs,
                                case["weights"], case["spreads"].get(cls, ["default", None]), tp=tp, ts=ts, style=case["style"])
         except Exception as exc:
+            if unsupported(exc):
+                tags.append("unsupported:%s:constructor:%s" % (gv, type(exc).__name__))
+                continue
             viol.append({"what": "%sLoss constructor raised %s: %s" % (cls, type(exc).__name__, str(exc)[:200]),
                          "signature": sg("constructor") + ":raises:" + type(exc).__name__, "detail": json.dumps(case)[:1500]})
             continue
@@ -320,6 +523,10 @@ def run_loss(case):
             if np.isfinite(got):
                 margins.append(abs(float(got) - ref) / tol)
             if not np.isfinite(got) or abs(float(got) - ref) > tol:
+                th_x = [(th_, x_) for th_, x_, tr_ in ((th_true, s["x0"], tr_true), (th_eval, s["x0"], tr_eval), (th_eval, x0_iv, tr_iv)) if tr_ is ref_tr]
+                if th_x and gv in ("far", "far-repeated") and scipy_lsoda_off(rhs, th_x[0][0], th_x[0][1], s["t0"], s["times"], ref_tr):
+                    tags.append("unjudged:scipy-lsoda-inaccurate-on-this-instance")
+                    return True
                 viol.append({"what": "%s of %sLoss is not the %s loss of the reference trajectory" % (what, cls, cls), "signature": sg(site),
                              "detail": "got %r expected %r (tolerance %g) obs=%s states=%s target_param=%s" % (float(got), ref, tol, obs, states, tp)})
                 return False
@@ -354,7 +561,16 @@ def run_loss(case):
             else:
                 c_iv = obj.costIV(arg)
                 check("costIV", c_iv, tr_iv, W, "costIV(theta, x0)")
+            if case.get("rejected_inputs"):
+                rejected_inputs(obj, cls, y, sg, check, theta_arg(s, tp, th_eval), None if ambiguous else arg)
         except Exception as exc:
+            if unsupported(exc):
+                tags.append("unsupported:%s:%s" % (gv, type(exc).__name__))
+                continue
+            if type(exc).__name__ == "IntegrationError" and any(scipy_lsoda_refuses(rhs, th_, x_, s["t0"], s["times"])
+                                                                for th_, x_ in ((th_true, s["x0"]), (th_eval, s["x0"]), (th_eval, x0_iv))):
+                tags.append("unjudged:scipy-lsoda-refuses-this-instance")
+                continue
             viol.append({"what": "%sLoss evaluation raised %s: %s" % (cls, type(exc).__name__, str(exc)[:200]),
                          "signature": sg("cost") + ":raises:" + type(exc).__name__, "detail": json.dumps(case)[:1500]})
     return {"nontrivial": evaluated > 0, "mismatches": mism, "violations": viol, "tags": sorted(set(tags)),
